@@ -42,6 +42,11 @@ EXTRA: list[tuple[str, str]] = [
     ("fm-closed-no-newline", "---\nk: v\n---\nqaa qab"),
     ("no-final-newline", "qaa qab"),
     ("code-no-final-newline", "```\nqaa\n```"),
+    ("many-code-links", " ".join(f"[`qz{c}`](http://u/{c})" for c in "abcdefghijklmn") + " qaa\n"),
+    ("many-code-in-tags", "- " + " ".join(f'<a title="`qz{c}`"> {{% qy{c} `qx{c}` %}}' for c in "abcdefghijkl") + " qaa\n"),
+    ("many-links-sentences", " ".join(f"qa{c} [`qz{c}`](u{c}). " for c in "abcdefghijklm") + "qan\n"),
+    ("open-link-dest", "qaa [qab](qac qad qae qaf qag qah qai qaj qak qal qam\n"),
+    ("open-bracket-run", "qaa [[[[[[[[[[qab qac qad ((((((((qae qaf <<<<<<<qag {{{{{{qah qai qaj\n"),
     ("list-code-blank-quote", "> 1. qaa\n>\n>    ```\n>    a\n>\n>    b\n>    ```\n"),
 ]
 
@@ -119,6 +124,57 @@ def what_fn(case: dict[str, Any], label: str, item: dict[str, Any], conc: dict[s
     return f"{label} | case {case['key']} model={item['model']} detail={str(f[0]['detail'] if f else conc.get('exc', ''))[:500]!r}"
 
 
+PUMP = (6, 40)
+PUMP_LIMIT_S = 30
+
+
+def _pumped(cs: list[dict[str, Any]], findings: list[Any]) -> dict[str, Any]:
+    """
+    Concrete observations, not solver verdicts: every skeleton of this check instantiated with all word lengths = 6 and
+    = 40 is formatted by the unpatched code under a wall-clock limit.  A run that does not return is a violation of
+    the property whatever else holds (and would otherwise show up as a stuck replay); the well-formedness obligations
+    are re-checked on these longer documents.
+    """
+    from checks import common as C
+    from engines import symlen as S
+
+    jobs, meta = [], []
+    for c in cs:
+        if c.get("twin"):
+            continue
+        doc = DOCS.doc_of(c)
+        toks = set(S.TOK_RE.findall(doc))
+        for n in PUMP:
+            text = S.instantiate(doc, {"L_" + t: n for t in toks})
+            kw = dict(width=40, plaintext=True) if c.get("plaintext") else dict(c["opts"], width=40)
+            jobs.append({"op": "reformat_text", "text": text, "kwargs": kw, "limit_s": PUMP_LIMIT_S, "timed": True})
+            meta.append((c, n, text))
+    slowest = 0.0
+    nfail = 0
+    seen: set[str] = set()
+    for (c, n, text), rr in zip(meta, C.replay_batch(jobs)):
+        label = None
+        if rr.get("timeout"):
+            label, detail = "terminates:pumped-returns-within-limit", rr["exc"]
+        elif "exc" in rr:
+            label, detail = "exception:" + rr["exc"].split(":")[0] + ":pumped", rr["exc"]
+        else:
+            out = rr["out"]
+            slowest = max(slowest, rr.get("seconds", 0.0))
+            if not c.get("plaintext") and not out.endswith("\n"):
+                label, detail = "wellformed:ends-with-newline:pumped", out[-40:]
+            elif out.count("\x00") > text.count("\x00") or len(_PLACEHOLDER.findall(out)) > len(_PLACEHOLDER.findall(text)):
+                label, detail = "wellformed:no-placeholder:pumped", out[:300]
+        if label:
+            nfail += 1
+            key = f"{DOCS.finding_class(c)}/{label}"
+            if key not in seen:
+                seen.add(key)
+                findings.append(C.Finding("C12", key, f"{label} | case {c['key']} all lengths={n} width=40: {str(detail)[:300]!r} input={text[:200]!r}",
+                                          {"op": "reformat_text", "text": text, "kwargs": jobs[0]["kwargs"] if False else (dict(width=40, plaintext=True) if c.get("plaintext") else dict(c["opts"], width=40)), "limit_s": PUMP_LIMIT_S, "label": label}))
+    return {"documents": len(jobs), "lengths": list(PUMP), "limit_s": PUMP_LIMIT_S, "slowest_s": slowest, "failed": nfail, "kind": "concrete replays on unpatched code; observations, not solver verdicts"}
+
+
 def main() -> int:
     from checks import common as C
     from engines import driver as D
@@ -126,6 +182,7 @@ def main() -> int:
     ev = C.Evidence("C12", "other")
     cs = cases(C.tier())
     findings, harness = D.run_check("C12", MODULE, cs, ev, key_fn, sample_paths=1 if C.tier() == "quick" else 2, what_fn=what_fn)
+    pumped = _pumped(cs, findings)
     ev.add(
         explanation="Bounded symbolic exploration (symlen over z3) of reformat_text on every skeleton family of this framework plus degenerate inputs: each feasible path (all word lengths, every "
         "integer width) must return a str without raising, end in a newline, introduce no NUL/placeholder, and add no trailing space to blank code lines. A path that raises is reported as "
@@ -134,7 +191,8 @@ def main() -> int:
         distinct_nontrivial=ev.coverage.get("states", 0),
         rule="case = (skeleton, option extreme | plaintext); one evaluation = one feasible path; all distinct (paths partition the integer space)",
         functions_encoded=["reformat_api.reformat_text (Markdown and plaintext)"],
-        not_claimed=["no hang / running time", "arbitrary Unicode text through Marko"],
+        not_claimed=["no hang / running time as a solver verdict (see pumped_replays: concrete observations with a wall-clock limit)", "arbitrary Unicode text through Marko"],
+        pumped_replays=pumped,
         sources=C.source_hashes(["src/flowmark/reformat_api.py", "src/flowmark/linewrapping/markdown_filling.py", "src/flowmark/linewrapping/text_wrapping.py", "src/flowmark/formats/flowmark_markdown.py"]),
     )
     return C.finish(ev, findings, harness)
